@@ -1190,6 +1190,8 @@ def _block(stmts, fx, occ, top=False):
     out = []
     for st in stmts:
         out.extend(_stmt(st, fx, occ))
+    if len(out) > 1 and any(isinstance(x, ast.Pass) for x in out):
+        out = [x for x in out if not isinstance(x, ast.Pass)] or [out[0]]
     # `t = E; return t` with t used nowhere else: return E
     k = 1
     while k < len(out):
@@ -1216,7 +1218,45 @@ def _block(stmts, fx, occ, top=False):
     return out
 
 
+_LOG_METHODS = {"debug", "info", "warning", "warn", "error", "exception", "critical", "log"}
+_PURE_IN_LOG = {"len", "str", "repr", "format", "type", "int", "float", "round", "id", "sorted", "list", "tuple", "min", "max", "sum", "abs", "bool"}
+
+
+def _is_log_stmt(st):
+    """logger.debug(..) / logging.info(..) / print(..) whose arguments only read (names, attributes, pure builtins, str.format,
+    time.time / perf_counter): it reports, it does not take part in what is computed"""
+    if not (isinstance(st, ast.Expr) and isinstance(st.value, ast.Call)):
+        return False
+    c = st.value
+    f = c.func
+    if isinstance(f, ast.Name) and f.id == "print":
+        pass
+    elif isinstance(f, ast.Attribute) and f.attr in _LOG_METHODS:
+        recv = (access_path(f.value) or "").lower()
+        if not (recv.endswith("logger") or recv.endswith("log") or recv == "logging" or recv.endswith("_logger") or recv.endswith("logger()")):
+            return False
+    else:
+        return False
+    for a in list(c.args) + [k.value for k in c.keywords]:
+        for n in ast.walk(a):
+            if isinstance(n, ast.Call):
+                fn_ = n.func
+                if isinstance(fn_, ast.Name) and fn_.id in _PURE_IN_LOG:
+                    continue
+                if isinstance(fn_, ast.Attribute) and fn_.attr in ("format", "join", "__name__", "total_seconds") :
+                    continue
+                if (access_path(fn_) or "") in ("time.time", "time.perf_counter", "time.monotonic", "sys.exc_info"):
+                    continue
+                return False
+            if isinstance(n, (ast.NamedExpr, ast.Await, ast.Yield, ast.YieldFrom, ast.Lambda)):
+                return False
+    return True
+
+
 def _stmt(st, fx, occ):
+    if LOGS[0] and _is_log_stmt(st):
+        STATS["log_stmt"] = STATS.get("log_stmt", 0) + 1
+        return [_loc(ast.Pass(), st)]
     if isinstance(st, (ast.FunctionDef, ast.AsyncFunctionDef)):
         normalize_function(st)
         return [st]
@@ -1773,6 +1813,7 @@ def _unalias(fn):
             break
 
 UNALIAS = [os.environ.get('VERIF_UNALIAS', '1') != '0']
+LOGS = [os.environ.get('VERIF_LOGS', '1') != '0']
 COMP = [True]     # lower statement-level comprehensions (switched off for the rules that interpret them directly)
 
 
